@@ -252,6 +252,50 @@ func (c02) Run(c *core.Ctx) {
 			}
 		}
 	}
+	// (3b) the uniform rotations again under the load options that switch loader stages off: what is skipped must not
+	// be what made the result order-independent
+	optSets := []struct {
+		name string
+		fn   func(*loader.Options)
+	}{
+		{"SkipNormalization", func(o *loader.Options) { o.SkipNormalization = true }},
+		{"SkipResolveEnvironment", func(o *loader.Options) { o.SkipResolveEnvironment = true }},
+		{"NoResolvePaths", func(o *loader.Options) { o.ResolvePaths = false }},
+		{"SkipConsistencyCheck", func(o *loader.Options) { o.SkipConsistencyCheck = true }},
+		{"SkipValidation", func(o *loader.Options) { o.SkipValidation = true }},
+		{"SkipDefaultValues", func(o *loader.Options) { o.SkipDefaultValues = true }},
+	}
+	for _, name := range names {
+		for _, os := range optSets {
+			if c.Expired() {
+				break
+			}
+			name, os := name, os
+			src := inputs[name]
+			s := &Scn{Files: src.Files, Main: src.Main, Env: src.Env, WD: src.WD, Name: src.Name, Opts: append(append([]func(*loader.Options){}, src.Opts...), os.fn)}
+			root := filepath.Join(base, name)
+			var ref c02sig
+			haveRef := false
+			for k := uintptr(0); k < 8; k++ {
+				k := k
+				c.Do(fmt.Sprintf("uniopt/%s/%s/%d", name, os.name, k), func() core.Outcome {
+					if !haveRef {
+						ref, _ = c02run(s, root, 0, 0, 0, 0)
+						haveRef = true
+					}
+					sg, n := c02run(s, root, k, 0, 0, 0)
+					c.Count("transitions", int64(n))
+					c.Count("states", 1)
+					if d := c02diff(ref, sg); d != "" {
+						return core.Outcome{Class: "diff", Viol: &core.Violation{Key: "order-dependent:uniform:" + name + ":" + os.name,
+							Msg: fmt.Sprintf("input %q loaded with %s: starting every map iteration at position %d changes the result: %s", name, os.name, k, d)},
+							Sample: map[string]any{"input": name, "option": os.name, "rotation": k}}
+					}
+					return core.Outcome{Class: fmt.Sprintf("uniopt/%s/%s/%d", name, os.name, k), Sample: map[string]any{"input": name, "option": os.name, "rotation": k}}
+				})
+			}
+		}
+	}
 	// (4) declaration-order permutations of the YAML text
 	c02permutations(c)
 	// (5) histories
